@@ -106,11 +106,42 @@ func c13Classes(fam string, unsigned bool) []string {
 	case "date":
 		return []string{"normal", "zero", "min", "max", "year-0", "zero-month", "zero-day", "invalid-day", "random"}
 	case "datetime":
-		return []string{"normal", "zero", "midnight", "frac6", "frac3", "frac-zero", "min", "max", "zero-frac", "zero-month", "random", "random-frac"}
+		// fields-hmsf-XXXX: every combination of hour, minute, second, fraction being zero (0)
+		// or non-zero (1), since encoders pick the wire length from which fields are zero
+		return append([]string{"normal", "zero", "midnight", "frac6", "frac3", "frac-zero", "min", "max", "zero-frac", "zero-month", "random", "random-frac"}, c13FieldMasks("fields-hmsf-", 4)...)
 	case "time":
-		return []string{"normal", "zero", "neg", "max", "min", "over24", "frac6", "frac3", "neg-frac", "frac-only", "neg-small", "zero-frac", "random", "random-frac"}
+		// fields-nhmsf-XXXXX: sign, hours (>0), minutes, seconds, fraction zero / non-zero
+		return append([]string{"normal", "zero", "neg", "max", "min", "over24", "frac6", "frac3", "neg-frac", "frac-only", "neg-small", "zero-frac", "random", "random-frac"}, c13FieldMasks("fields-nhmsf-", 5)...)
 	}
 	return nil
+}
+
+func c13FieldMasks(prefix string, bits int) []string {
+	out := []string{}
+	for m := 0; m < 1<<uint(bits); m++ {
+		s := ""
+		for b := bits - 1; b >= 0; b-- {
+			s += string(byte('0' + m>>uint(b)&1))
+		}
+		out = append(out, prefix+s)
+	}
+	return out
+}
+
+// c13Field: a zero or non-zero field value for a fields-... class ('1' = non-zero, 1..max).
+func c13Field(bit byte, max int, r *kit.Rand) int {
+	if bit == '0' {
+		return 0
+	}
+	return r.Range(1, max)
+}
+
+// c13FracText: "" for a zero fraction, else ".dddddd" with a non-zero value (1, 500000 or random).
+func c13FracText(bit byte, r *kit.Rand) string {
+	if bit == '0' {
+		return ""
+	}
+	return fmt.Sprintf(".%06d", []int{1, 500000, r.Range(1, 999999), r.Range(1, 999) * 1000}[r.Intn(4)])
 }
 
 func c13Letters(r *kit.Rand, n int) []byte {
@@ -397,6 +428,11 @@ func c13Value(t c13Type, unsigned bool, class string, r *kit.Rand) []byte {
 		case "zero-month":
 			return []byte("2024-00-00 00:00:00")
 		}
+		if strings.HasPrefix(class, "fields-hmsf-") {
+			b := class[len("fields-hmsf-"):]
+			return []byte(fmt.Sprintf("%04d-%02d-%02d %02d:%02d:%02d", r.Range(1000, 9999), r.Range(1, 12), r.Range(1, 28),
+				c13Field(b[0], 23, r), c13Field(b[1], 59, r), c13Field(b[2], 59, r)) + c13FracText(b[3], r))
+		}
 		s := fmt.Sprintf("%04d-%02d-%02d %02d:%02d:%02d", r.Range(1000, 9999), r.Range(1, 12), r.Range(1, 28), r.Intn(24), r.Intn(60), r.Intn(60))
 		if class == "random-frac" {
 			s += fmt.Sprintf(".%06d", r.Intn(1000000))[:2+r.Intn(6)]
@@ -428,6 +464,18 @@ func c13Value(t c13Type, unsigned bool, class string, r *kit.Rand) []byte {
 			return []byte("-00:00:01")
 		case "zero-frac":
 			return []byte("00:00:00.000000")
+		}
+		if strings.HasPrefix(class, "fields-nhmsf-") {
+			b := class[len("fields-nhmsf-"):]
+			h, mi, sec, fr := c13Field(b[1], 838, r), c13Field(b[2], 59, r), c13Field(b[3], 59, r), c13FracText(b[4], r)
+			sign := ""
+			if b[0] == '1' && (h != 0 || mi != 0 || sec != 0 || fr != "") {
+				sign = "-"
+			}
+			if h == 838 && mi == 59 && sec == 59 {
+				fr = "" // 838:59:59 is the limit of TIME
+			}
+			return []byte(fmt.Sprintf("%s%02d:%02d:%02d%s", sign, h, mi, sec, fr))
 		}
 		s := ""
 		if r.Chance(1, 3) {
@@ -1011,6 +1059,9 @@ func TestVerif_C13(t *testing.T) {
 				reps := 1
 				if strings.HasPrefix(cl, "random") || cl == "zerofill-padded" {
 					reps = kit.N(4, 60)
+				}
+				if strings.HasPrefix(cl, "fields-") {
+					reps = kit.N(3, 20)
 				}
 				for i := 0; i < reps; i++ {
 					m.run(c13Case{Types: []int{ty.Code}, Flags: []int{fl}, Rows: [][]c13Cell{{c13Cells(ty, uns, cl, r)}}})
